@@ -37,6 +37,12 @@ SHORT = {
  "r4_C09": ("DrainFilterInner::next re-creates its iterator after a remove released the old table", "drain_filter whose predicate matches every old-table element and keeps a main-table one: predicate runs twice"),
  "r4_C13": ("HashMap::insert on a key found in the OLD table: erase + fresh insert, returns None", "re-insert of an element that is still in the old table (HashSet::insert returns true)"),
  "r4_C14": ("PartialEq for HashMap: length guard `>` instead of `!=`", "left operand a strict sub-map of the right one"),
+ "r5_C02": ("VacantEntry::insert: reserve(1) on the raw table before inserting", "entry-API insert of a fresh key while split with the tightest headroom (e.g. after a mid-resize shrink_to_fit): carry_all + grow in one call"),
+ "r5_C03": ("insert_no_grow: carry skipped when the old table is already empty", "old table emptied by retain / replace_entry_with, then key-adding calls: never released"),
+ "r5_C05": ("OccupiedEntry::insert carries after the write, handle keeps the pre-carry bucket", "entry handle reused after insert on an old-table key among the next 8 to move"),
+ "r5_C06": ("RefreshItems::drop: iterator rebuild skipped when the old table became empty (ZST)", "zero-sized element, retain/replace_entry_with(None) empties the old table, later insert"),
+ "r5_C10": ("try_reserve (split branch): infallible grow() + Ok(())", "mid-resize try_reserve(n) with n unallocatable but leftovers + n not overflowing: panics instead of Err"),
+ "r5_C17": ("and_carry_with_hasher: insert_no_grow instead of the growing insert", "clone_from into a smaller destination whose allocation is reused, source mid-resize: growth_left underflow"),
  "d1": ("revert of fix dbcf4bd", "retain away the old table; shrink_to_fit; insert"),
  "d35": ("revert of fix dc3af20", "replace_entry_with on an old-table element (panic / beyond cursor group)"),
  "d2": ("revert of fix ce142c0", "HashSet<()>: insert; reserve(10); remove"),
